@@ -23,8 +23,8 @@ MAX_HASHES = 3_000_000
 TIERS = {
     # property: (quick runs, chunk)
     "C01": {"quick_runs": 6000, "chunk": 100},
-    "C05": {"quick_runs": 2400, "chunk": 50},
-    "C10": {"quick_runs": 4000, "chunk": 50},
+    "C05": {"quick_runs": 2400, "chunk": 20},
+    "C10": {"quick_runs": 4000, "chunk": 25},
     "C16": {"quick_runs": 4000, "chunk": 50},
 }
 
@@ -95,7 +95,7 @@ class Batch:
         with ProcessPoolExecutor(max_workers=self.workers, mp_context=ctx) as ex:
             def submit_more():
                 nonlocal next_index
-                while len(pending) < self.workers * 2:
+                while len(pending) < self.workers + 4:
                     if first_violation_index is not None:
                         return
                     if total_target is not None and next_index >= total_target:
